@@ -4,7 +4,7 @@ package connectconformance
 
 // Contracts for the deductive verifier in /verif (comment-only file; no code).
 
-//@ guarded testResults: outcomes, traces, serverSideband by mu
+//@ guarded testResults: outcomes+, traces, serverSideband by mu //# outcomes+: set once, keys are never removed
 //@ monitor testResults by mu: self.outcomes != nil && self.serverSideband != nil
 
 // Immutable part of a results object (set by newResults, never written again).
@@ -46,26 +46,31 @@ package connectconformance
 //@   ensures len(r.outcomes) == old(len(r.outcomes)) + (old(has(r.outcomes, testCase)) ? 0 : 1)
 
 //@ func (*testResults).setOutcome
-//@   requires wfResults(r) && !held[r.mu]
+//@   requires wfResults(r)
 //@   modifies atomicI32, held, map[string]testOutcome
 //@   ensures !held[r.mu]
+//@   ensures @recorded has(r.outcomes, testCase) && r.outcomes[testCase].actualFailure == err && r.outcomes[testCase].setupError == setupError
+//@   ensures @kept forall k string :: old(r.outcomes != nil && has(r.outcomes, k)) ==> has(r.outcomes, k)
 
 //@ func (*testResults).recordSideband
-//@   requires wfResults(r) && !held[r.mu]
+//@   requires wfResults(r)
 //@   modifies held, map[string]string
 //@   ensures !held[r.mu]
 
 //@ func (*testResults).failed
-//@   requires wfResults(r) && !held[r.mu] && err != nil
+//@   requires wfResults(r) && err != nil
 //@   modifies atomicI32, held, map[string]testOutcome
 //@   ensures !held[r.mu]
+//@   ensures @recorded has(r.outcomes, testCase) && !r.outcomes[testCase].setupError && r.outcomes[testCase].actualFailure != nil
+//@   ensures @kept forall k string :: old(r.outcomes != nil && has(r.outcomes, k)) ==> has(r.outcomes, k)
 
 // failedToStart: every case of the batch is recorded as a setup error.
 //@ func (*testResults).failedToStart
-//@   requires wfResults(r) && !held[r.mu]
+//@   requires wfResults(r)
 //@   requires forall i int :: 0 <= i && i < len(testCases) ==> testCases[i] != nil && testCases[i].Request != nil
 //@   modifies atomicI32, held, map[string]testOutcome
 //@   ensures !held[r.mu]
+//@   ensures @kept forall k string :: old(r.outcomes != nil && has(r.outcomes, k)) ==> has(r.outcomes, k)
 //@   ensures forall i int :: 0 <= i && i < len(testCases) ==>
 //@      has(r.outcomes, testCases[i].Request.TestName) && r.outcomes[testCases[i].Request.TestName].setupError &&
 //@      r.outcomes[testCases[i].Request.TestName].actualFailure == err
@@ -76,10 +81,11 @@ package connectconformance
 
 // failRemaining: afterwards every case of the batch has an outcome.
 //@ func (*testResults).failRemaining
-//@   requires wfResults(r) && !held[r.mu]
+//@   requires wfResults(r)
 //@   requires forall i int :: 0 <= i && i < len(testCases) ==> testCases[i] != nil && testCases[i].Request != nil
 //@   modifies atomicI32, held, map[string]testOutcome
 //@   ensures !held[r.mu]
+//@   ensures @kept forall k string :: old(r.outcomes != nil && has(r.outcomes, k)) ==> has(r.outcomes, k)
 //@   ensures forall i int :: 0 <= i && i < len(testCases) ==> has(r.outcomes, testCases[i].Request.TestName)
 //@   loop 0: invariant held[r.mu] && r.outcomes != nil
 //@           invariant forall i int :: 0 <= i && i <= rangeindex ==> has(r.outcomes, testCases[i].Request.TestName)
@@ -105,7 +111,7 @@ package connectconformance
 // The run succeeds exactly when every selected case produced an outcome and every
 // outcome met its expectation (after peer feedback has been merged in).
 //@ func (*testResults).report
-//@   requires wfResults(r) && !held[r.mu] && printer != nil
+//@   requires wfResults(r) && printer != nil
 //@   requires 0 <= r.totalTestCount && r.totalTestCount <= 4611686018427387904 //# resource assumption: fewer than 2^62 selected cases
 //@   modifies held, atomicI32, map[string]testOutcome, map[string]string, testResults.serverSideband, gVerdict
 //@   ensures !held[r.mu]
@@ -147,3 +153,13 @@ package connectconformance
 //@   requires wfResults(r) && r.tracer != nil
 //@   modifies held, selWait, map[string]*tracer.traceResult, map[string]*tracer.Trace, testResults.traces
 //@   ensures @cleared !has(r.tracer.traces, testCase)
+
+// assert: the verdict for one result is recorded under the given name (what the verdict is:
+// property C03, contracts in zz_assert_verif.go).
+//@ func (*testResults).assert
+//@   trusted
+//@   requires wfResults(r) && definition != nil && actual != nil
+//@   modifies atomicI32, held, map[string]testOutcome
+//@   ensures !held[r.mu]
+//@   ensures @recorded has(r.outcomes, testCase) && !r.outcomes[testCase].setupError
+//@   ensures @kept forall k string :: old(r.outcomes != nil && has(r.outcomes, k)) ==> has(r.outcomes, k)
